@@ -248,6 +248,53 @@ def run(ctx):
                 nrm = np.linalg.norm(np.asarray(m1.vect, dtype=float), axis=1)
                 if np.abs(nrm - 1).max() > 1e-6:
                     ctx.violation('mirrored dotprops tangents are not unit vectors', d)
+        # ---- mirroring WITH a warp that is not an isometry, and symmetrizing through a registered mirror registration:
+        #      every object moves as the raw coordinate array does, tangents stay unit vectors, the input is untouched
+        if ci % 3 == 0:
+            from navis.transforms import registry
+            Wm = np.eye(4)
+            Wm[:3, :3] = np.diag(rng.choice([0.7, 1.0, 1.4], size=3)) + rng.choice([0.0, 0.05, 0.1], size=(3, 3)) * (1 - np.eye(3))
+            Wm[:3, 3] = rng.integers(-20, 21, size=3)
+            warp = tr.AffineTransform(Wm)
+            lab = 'C16SYM%d_%d' % (int(ctx.seed) % 100000, ci)
+            tbs = TemplateBrain(label=lab, name=lab, boundingbox=bb.flatten().tolist())
+            registry.register_templatebrain(tbs)
+            registry.register_transform(tr.AffineTransform(Wm), source=lab, target=None, transform_type='mirror')
+            for obj_name, obj in (('skeleton', sk), ('mesh', me), ('dotprops-nok', dp0), ('volume', vol_), ('trimesh', tri_)):
+                c0 = np.asarray(get(obj), dtype=float).copy()
+                f0 = np.asarray(obj.faces).copy() if hasattr(obj, 'faces') else None
+                for how in ('mirror+warp', 'symmetrize'):
+                    d = dict(kind=obj_name, operation=how, mirror_axis=axis, boundingbox=bb.tolist(), warp=Wm.tolist())
+                    if how == 'mirror+warp':
+                        st, m1 = guarded(navis.mirror_brain, obj, tb, mirror_axis=axis, warp=warp)
+                        st0, wantw = guarded(navis.mirror_brain, c0.copy(), tb, mirror_axis=axis, warp=warp)
+                    else:
+                        st, m1 = guarded(navis.symmetrize_brain, obj, template=lab)
+                        st0, wantw = guarded(navis.symmetrize_brain, c0.copy(), template=lab)
+                    ctx.case((how, obj_name, axis, str(bb.tolist()), ci), nontrivial=True)
+                    ctx.count(how + ':' + obj_name)
+                    if st != 'ok' or st0 != 'ok':
+                        ctx.violation('%s raised' % how, d, m1 if st != 'ok' else wantw)
+                        continue
+                    if how == 'mirror+warp':      # the raw-array result itself: flip about the midplane, then the warp
+                        fl = c0.copy(); fl[:, ix] = size - fl[:, ix]
+                        ww = fl @ Wm[:3, :3].T + Wm[:3, 3]
+                        if np.abs(np.asarray(wantw, dtype=float) - ww).max() > 1e-9 * max(1, np.abs(ww).max()):
+                            ctx.violation('mirroring with a warp is not the flip about the midplane followed by the warp', dict(d, kind='points'))
+                    c1 = np.asarray(get(m1), dtype=float)
+                    if c1.shape != np.asarray(wantw).shape or np.abs(c1 - np.asarray(wantw, dtype=float)).max() > 1e-9 * max(1, np.abs(c1).max()):
+                        ctx.violation('%s moves the object differently from the raw coordinate array' % how, d)
+                    if m1 is obj or not np.array_equal(np.asarray(get(obj), dtype=float), c0) or (f0 is not None and not np.array_equal(np.asarray(obj.faces), f0)):
+                        ctx.violation('%s modified its input' % how, d)
+                    if obj_name == 'dotprops-nok':
+                        stv, vv = guarded(lambda: np.asarray(m1.vect, dtype=float))
+                        if stv != 'ok':
+                            ctx.violation('dotprops without k have no tangents after %s' % how, d, vv,
+                                          key='C16:symmetrize-kless-dotprops' if how == 'symmetrize' else None)
+                            continue
+                        nrm = np.linalg.norm(vv, axis=1)
+                        if np.abs(nrm - 1).max() > 1e-6:
+                            ctx.violation('dotprops tangents are not unit vectors after %s' % how, d, dict(norms=[float(nrm.min()), float(nrm.max())]))
 
 
 
